@@ -41,6 +41,8 @@ class Effect:
         self.src, self.extra, self.via = src, extra or {}, via or []
         self.handlers = handlers or []
         self.order = order
+        self.root_node: ast.AST = node  # the call in the summarised method through which the effect happens (helpers inlined)
+        self.root_func: Func = func
 
     def where(self) -> str:
         return f"{self.func.module.relpath}:{getattr(self.node, 'lineno', '?')}"
@@ -473,7 +475,7 @@ class StoreModel:
             if d in prog.funcs:
                 callee = prog.funcs[d]
                 if depth < 6 and callee.cls is None:
-                    return self._inline(callee, args, kwargs, conds, out, handlers, depth, e)
+                    return self._inline(callee, args, kwargs, conds, out, handlers, depth, e, f)
             if d in prog.classes:
                 return ("obj", d) + tuple(args)
         if isinstance(fn, ast.Attribute):
@@ -484,7 +486,7 @@ class StoreModel:
             if recv == ("self",):
                 m = prog.find_method(self.cls.qname, attr)
                 if m is not None and depth < 6:
-                    return self._inline(m, args, kwargs, conds, out, handlers, depth, e)
+                    return self._inline(m, args, kwargs, conds, out, handlers, depth, e, f)
             if attr == "joinpath":
                 jt = flatten(("join", recv) + tuple(args))
                 if hasattr(self, "join_sites"):
@@ -561,7 +563,7 @@ class StoreModel:
         return ("call", d or unparse(fn, 40)) + tuple(args)
 
     def _inline(self, callee: Func, args: List[Term], kwargs: Dict[str, Term], conds, out: List[Effect], handlers: List[str],
-                depth: int, site: ast.Call) -> Term:
+                depth: int, site: ast.Call, caller: Optional[Func] = None) -> Term:
         env: Dict[str, Term] = {}
         ps = callee.positional_params()
         for i, p in enumerate(ps):
@@ -578,6 +580,8 @@ class StoreModel:
         for s in sub:
             s.conds = list(conds) + s.conds
             s.via = [f"{callee.qname} (inlined at line {site.lineno})"] + s.via
+            s.root_node = site
+            s.root_func = caller if caller is not None else s.root_func
             out.append(s)
         return r if r is not None else ("none",)
 
